@@ -663,7 +663,10 @@ func (w *Writer) WriteMessages(ctx context.Context, msgs ...Message) error {
 		assignments[key] = append(assignments[key], int32(i))
 	}
 
-	batches := w.batchMessages(msgs, assignments)
+	batches, err := w.batchMessages(msgs, assignments)
+	if err != nil {
+		return err
+	}
 	if w.Async {
 		return nil
 	}
@@ -695,7 +698,7 @@ func (w *Writer) WriteMessages(ctx context.Context, msgs ...Message) error {
 	return werr
 }
 
-func (w *Writer) batchMessages(messages []Message, assignments map[topicPartition][]int32) map[*writeBatch][]int32 {
+func (w *Writer) batchMessages(messages []Message, assignments map[topicPartition][]int32) (map[*writeBatch][]int32, error) {
 	var batches map[*writeBatch][]int32
 	if !w.Async {
 		batches = make(map[*writeBatch][]int32, len(assignments))
@@ -703,6 +706,16 @@ func (w *Writer) batchMessages(messages []Message, assignments map[topicPartitio
 
 	w.mutex.Lock()
 	defer w.mutex.Unlock()
+
+	if w.closed {
+		// Close was called after this operation entered the writer and has
+		// already closed and removed the partition writers. Creating writers
+		// now would leave goroutines that Close never stops, and a second
+		// writer for a partition whose first writer is still draining its
+		// queue would break the per-partition ordering. Nothing has been
+		// queued yet, so the call fails as if it had arrived after Close.
+		return nil, io.ErrClosedPipe
+	}
 
 	if w.writers == nil {
 		w.writers = map[topicPartition]*partitionWriter{}
@@ -721,19 +734,7 @@ func (w *Writer) batchMessages(messages []Message, assignments map[topicPartitio
 		}
 	}
 
-	if w.closed {
-		// Close was called after this operation entered the writer and has
-		// already closed and removed the partition writers it knew about. The
-		// writers created above would otherwise never be closed: their pending
-		// batches must be flushed and their goroutines stopped so that Close,
-		// which waits for this operation, can return.
-		for key, writer := range w.writers {
-			writer.close()
-			delete(w.writers, key)
-		}
-	}
-
-	return batches
+	return batches, nil
 }
 
 func (w *Writer) produce(key topicPartition, batch *writeBatch) (*ProduceResponse, error) {
